@@ -59,7 +59,8 @@ def draw_cfg(D_):
 
 
 def _cfg(cfg):
-    return dask.config.set({k: v for k, v in cfg.items() if v is not None})
+    # a per-axis split_every mapping travels through JSON with string keys
+    return dask.config.set({k: ({int(a): b for a, b in v.items()} if isinstance(v, dict) else v) for k, v in cfg.items() if v is not None})
 
 
 class History:
@@ -251,6 +252,25 @@ def history_st(draw, max_steps):
             if D_.chance(1, 4):
                 a, b = b, a
             script = [{"k": "build", "stmt": s, "cfg": {"split_every": a}}, {"k": "compute", "v": 1, "cfg": {}}, {"k": "rebuild", "v": 1, "cfg": {"split_every": b}}, {"k": "compute", "v": 2, "cfg": {}}]
+            tree_seen[0] = True
+        if D_.chance(1, 3):
+            # variant: a 2-d input of one-element blocks reduced over both axes under a PER-AXIS fan-in mapping
+            # (the axis with the most blocks is not the one that needs the most levels)
+            if D_.chance(2, 3):
+                # the relation that matters: the axis with MORE blocks has the LARGER fan-in and needs fewer
+                # levels than the other one (7 blocks / fan-in 3: 2 levels; 6 blocks / fan-in 2: 3 levels)
+                n1 = D_.int(5, 6)
+                n0 = D_.int(n1, 8)
+                f0, f1 = 3, 2
+                if D_.bool():
+                    n0, n1, f0, f1 = n1, n0, f1, f0
+            else:
+                n0, n1, f0, f1 = D_.int(5, 7), D_.int(4, 6), D_.choice([2, 3, 4]), D_.choice([2, 3, 4])
+            leaves = [{"shape": [n0, n1], "dtype": D_.choice(["f8", "i8"]), "chunks": [[1] * n0, [1] * n1], "offset": D_.choice([0, 1, -3]), "kind": "numpy"}]
+            red = D_.choice(["sum", "sum", "mean", "max", "min"])
+            s = {"op": red, "args": [0], "axis": None if D_.bool() else [0, 1], "keepdims": D_.chance(1, 3)}
+            fan = {"0": f0, "1": f1}
+            script = [{"k": "build", "stmt": s, "cfg": {"split_every": fan}}, {"k": "compute", "v": 1, "cfg": {}}, {"k": "compute", "v": 1, "cfg": {"split_every": D_.choice([2, 16])}}]
             tree_seen[0] = True
     h = History(leaves)
     steps = []
